@@ -24,6 +24,10 @@ class Unsupported(ValueError):
     pass
 
 
+def lean_s(x):
+    return '"' + x.replace("\\", "\\\\").replace('"', '\\"') + '"'
+
+
 def _find(body, kind, name):
     for n in body:
         if isinstance(n, kind) and n.name == name:
@@ -354,6 +358,187 @@ class CParse:
         return "(.assign %s %s)" % (self.var(v), self.show(e))
 
 
+# ------------------------------------------------------------------------------- C property handlers as data
+H_ARGS = ["obj", "name", "value", "trait", "traito", "traitd", "validated"]
+H_FIELDS = ["delegate_name", "delegate_prefix", "py_validate", "validate", "post_setattr"]
+H_WHO = ["trait", "traito", "traitd"]
+
+
+def _norm_handler(csrc, name):
+    """tokens of the body joined by one blank, without declarations that initialise nothing, casts to PyObject*
+    and reference-count statements (none of them carries data)"""
+    _, body = c_function(csrc, name)
+    text = re.sub(r"/\*.*?\*/", " ", body, flags=re.S)
+    toks = re.findall(r"[A-Za-z_][A-Za-z_0-9]*|\d+|==|->|[(){};,=*\-]", text)
+    if "".join(toks) != re.sub(r"\s+", "", text):
+        raise Unsupported("%s: characters outside the token set" % name)
+    t = " ".join(toks) + " "
+    t = re.sub(r"\( PyObject \* \) ", "", t)
+    t = re.sub(r"(?:PyObject|int) \* ?[a-z_]+ ; ", "", t)
+    t = re.sub(r"(?<![A-Za-z_])int [a-z_]+ ; ", "", t)
+    t = re.sub(r"Py_X?DECREF \( [a-z_]+ \) ; ", "", t)
+    return t.strip()
+
+
+def _tuple(m_new, k, args, who):
+    if m_new:
+        return []
+    al = [x.strip() for x in args.split(",")]
+    if int(k) != len(al) or any(x not in H_ARGS for x in al):
+        raise Unsupported("%s: argument tuple" % who)
+    return al
+
+
+def _callh(who, field, args, fn):
+    if who not in H_WHO or field not in H_FIELDS or any(a not in H_ARGS for a in args):
+        raise Unsupported("%s: callee / arguments" % fn)
+    return "⟨.%s, .%s, [%s]⟩" % (who, field, ", ".join("." + a for a in args))
+
+
+TUPLE_RE = r"(?:(?P<new>PyTuple_New \( 0 \))|PyTuple_Pack \( (?P<k>\d+) , (?P<args>[a-z_ ,]+) \))"
+
+
+def read_call_handler(csrc, fn):
+    t = _norm_handler(csrc, fn)
+    m = re.fullmatch(r"(?:PyObject \* )?(?P<a>[a-z_]+) = " + TUPLE_RE + r" ; if \( (?P=a) == NULL \) \{ return NULL ; \} "
+                     r"(?P<r>[a-z_]+) = PyObject_Call \( (?P<who>[a-z_]+) -> (?P<field>[a-z_]+) , (?P=a) , NULL \) ; "
+                     r"return (?P=r) ;", t)
+    if not m:
+        raise Unsupported("%s: unexpected shape: %s" % (fn, t))
+    return _callh(m.group("who"), m.group("field"), _tuple(m.group("new"), m.group("k"), m.group("args"), fn), fn)
+
+
+DEL_GUARD = r"(?P<del>if \( value == NULL \) \{ return set_delete_property_error \( obj , name \) ; \} )?"
+
+
+def read_set_handler(csrc, fn):
+    t = _norm_handler(csrc, fn)
+    m = re.fullmatch(DEL_GUARD + r"(?P<a>[a-z_]+) = " + TUPLE_RE + r" ; if \( (?P=a) == NULL \) \{ return - 1 ; \} "
+                     r"(?P<r>[a-z_]+) = PyObject_Call \( (?P<who>[a-z_]+) -> (?P<field>[a-z_]+) , (?P=a) , NULL \) ; "
+                     r"(?P<nul>if \( (?P=r) == NULL \) \{ return - 1 ; \} )?return 0 ;", t)
+    if m and (m.group("a") in H_ARGS or m.group("r") in H_ARGS or m.group("a") == m.group("r")):
+        raise Unsupported("%s: a local shadows a parameter" % fn)
+    if not m:
+        raise Unsupported("%s: unexpected shape: %s" % (fn, t))
+    call = _callh(m.group("who"), m.group("field"), _tuple(m.group("new"), m.group("k"), m.group("args"), fn), fn)
+    return "{ deleteGuard := %s, call := %s, failOnNull := %s }" % (
+        "true" if m.group("del") else "false", call, "true" if m.group("nul") else "false")
+
+
+def read_validate_set(csrc):
+    fn = "setattr_validate_property"
+    t = _norm_handler(csrc, fn)
+    m = re.fullmatch(DEL_GUARD + r"validated = (?P<w1>[a-z_]+) -> (?P<f1>[a-z_]+) \( (?P<a1>[a-z_ ,]+) \) ; "
+                     r"(?P<nul>if \( validated == NULL \) \{ return - 1 ; \} )?"
+                     r"result = \( \( trait_setattr \) (?P<w2>[a-z_]+) -> (?P<f2>[a-z_]+) \) \( (?P<a2>[a-z_ ,]+) \) ; "
+                     r"return (?P<ret>[a-z_]+) ;", t)
+    if not m:
+        raise Unsupported("%s: unexpected shape: %s" % (fn, t))
+    a1 = [x.strip() for x in m.group("a1").split(",")]
+    a2 = [x.strip() for x in m.group("a2").split(",")]
+    return ("{ deleteGuard := %s, validate := %s, failOnNull := %s, set := %s, returnsSetResult := %s }" % (
+        "true" if m.group("del") else "false", _callh(m.group("w1"), m.group("f1"), a1, fn),
+        "true" if m.group("nul") else "false", _callh(m.group("w2"), m.group("f2"), a2, fn),
+        "true" if m.group("ret") == "result" else "false"))
+
+
+def read_table(csrc, decl, prefix):
+    m = re.search(re.escape(decl) + r"\[\]\s*=\s*\{(.*?)\};", csrc, flags=re.S)
+    if not m:
+        raise Unsupported("table %s" % decl)
+    items = [x.strip() for x in re.sub(r"/\*.*?\*/", " ", m.group(1), flags=re.S).split(",") if x.strip()]
+    out = []
+    for it in items:
+        mm = re.fullmatch(re.escape(prefix) + r"(\d)", it)
+        if not mm:
+            break               # (the set table continues with entries used by __getstate__ only)
+        out.append(int(mm.group(1)))
+    if len(out) != 4:
+        raise Unsupported("table %s: %s" % (decl, items))
+    return out
+
+
+def read_install(csrc):
+    _, body = c_function(csrc, "_trait_set_property")
+    t = re.sub(r"\s+", " ", re.sub(r"/\*.*?\*/", " ", body, flags=re.S))
+    m = re.search(r"trait->getattr = getattr_property_handlers\[(\w+)\]; if \((.*?)\) \{ "
+                  r"trait->setattr = (\w+); trait->post_setattr = \(trait_post_setattr\) ?setattr_property_handlers\[(\w+)\]; "
+                  r"trait->validate = setattr_validate_handlers\[(\w+)\]; \} else \{ "
+                  r"trait->setattr = setattr_property_handlers\[(\w+)\]; \}", t)
+    if not m:
+        raise Unsupported("_trait_set_property: installation block")
+    fields = re.findall(r"trait->(delegate_name|delegate_prefix|py_validate) = (\w+);", t)
+    if [f for f, _ in fields] != ["delegate_name", "delegate_prefix", "py_validate"]:
+        raise Unsupported("_trait_set_property: fields %s" % fields)
+    pm = re.search(r'PyArg_ParseTuple\( args, "OiOiOi", &get, &get_n, &set, &set_n, &validate, &validate_n\)', t)
+    if not pm:
+        raise Unsupported("_trait_set_property: argument order")
+    return m.groups(), fields
+
+
+def read_property_fields(traits_dir):
+    """ctrait.py `property_fields` setter: how the arity handed to `_set_property` is computed"""
+    tree = ast.parse(open(os.path.join(traits_dir, "ctrait.py")).read())
+    cls = _find(tree.body, ast.ClassDef, "CTrait")
+    setters = [n for n in cls.body if isinstance(n, ast.FunctionDef) and n.name == "property_fields"
+               and any(ast.unparse(d) == "property_fields.setter" for d in n.decorator_list)]
+    if len(setters) != 1:
+        raise Unsupported("CTrait.property_fields setter")
+    fn = setters[0]
+    # alpha-normalise: parameters and locals numbered by first occurrence
+    names = {}
+
+    class Ren(ast.NodeTransformer):
+        def visit_arg(self, a):
+            names.setdefault(a.arg, "x%d" % len(names))
+            a.arg = names[a.arg]
+            return a
+
+        def visit_Name(self, n):
+            if isinstance(n.ctx, ast.Store):
+                names.setdefault(n.id, "x%d" % len(names))
+            if n.id in names:
+                n.id = names[n.id]
+            return n
+    body = [Ren().visit(n) for n in [fn.args] + _body(fn)][1:]
+    text = "\n".join(ast.unparse(ast.fix_missing_locations(n)) for n in body)
+    want = ("x2 = []\nfor x3 in x1:\n    if x3 is None:\n        x4 = 0\n    else:\n        x5 = inspect.signature(x3)\n"
+            "        x4 = len(x5.parameters)\n    x2.extend([x3, x4])\nx0._set_property(*x2)")
+    if text != want:
+        raise Unsupported("CTrait.property_fields setter: unexpected body:\n%s" % text)
+    # what the recognised body means, as data
+    return {"noneArity": 0, "arity": "len(signature.parameters)", "pairOrder": ["callable", "arity"]}
+
+
+def read_property_factory(traits_dir):
+    """traits.py Property(): which callables become (fget, fset, fvalidate) when one is missing"""
+    tree = ast.parse(open(os.path.join(traits_dir, "traits.py")).read())
+    pf = _find(tree.body, ast.FunctionDef, "Property")
+    blk = [n for n in pf.body if isinstance(n, ast.If) and ast.unparse(n.test) == "fget is None"]
+    if len(blk) != 1:
+        raise Unsupported("traits.Property: default getter / setter block")
+    n = blk[0]
+    inner = [x for x in n.body if isinstance(x, ast.If)]
+    if len(inner) != 1 or ast.unparse(inner[0].test) != "fset is None":
+        raise Unsupported("traits.Property: inner block")
+    both = [ast.unparse(x) for x in inner[0].body]
+    wo = [ast.unparse(x) for x in inner[0].orelse]
+    if len(n.orelse) != 1 or not isinstance(n.orelse[0], ast.If) or ast.unparse(n.orelse[0].test) != "fset is None":
+        raise Unsupported("traits.Property: elif")
+    ro = [ast.unparse(x) for x in n.orelse[0].body if "transient" not in ast.unparse(x)]
+    if both != ["fget = _undefined_get", "fset = _undefined_set"] or wo != ["fget = _write_only"] \
+            or ro != ["fset = _read_only"]:
+        raise Unsupported("traits.Property: defaults %s %s %s" % (both, wo, ro))
+    asg = [ast.unparse(x) for x in pf.body if isinstance(x, ast.Assign) and "property_fields" in ast.unparse(x)]
+    if asg != ["trait.property_fields = (fget, fset, fvalidate)"]:
+        raise Unsupported("traits.Property: property_fields %s" % asg)
+    ttree = ast.parse(open(os.path.join(traits_dir, "trait_type.py")).read())
+    src = ast.unparse(ttree)
+    if "trait.property_fields = (getter, setter, validate)" not in src:
+        raise Unsupported("TraitType.as_ctrait: property_fields")
+    return ["fget", "fset", "fvalidate"]
+
+
 def emit(traits_dir):
     tree = ast.parse(open(os.path.join(traits_dir, "has_traits.py")).read())
     cpos = _find(tree.body, ast.FunctionDef, "_create_property_observe_state")
@@ -397,6 +582,16 @@ def emit(traits_dir):
     gargs = [re.sub(r"\(PyObject \*\)|\s", "", a) for a in m.group(2).split(",")]
     if int(m.group(1)) != len(gargs):
         raise Unsupported("getattr_property1: argument count")
+    gets = [read_call_handler(csrc, "getattr_property%d" % i) for i in range(4)]
+    sets = [read_set_handler(csrc, "setattr_property%d" % i) for i in range(4)]
+    vals = [read_call_handler(csrc, "setattr_validate%d" % i) for i in range(4)]
+    vset = read_validate_set(csrc)
+    (get_ix, cond, vsetattr, post_ix, val_ix, plain_ix), fields = read_install(csrc)
+    tables = (read_table(csrc, "getattr_property_handlers", "getattr_property"),
+              read_table(csrc, "setattr_property_handlers", "setattr_property"),
+              read_table(csrc, "setattr_validate_handlers", "setattr_validate"))
+    pf = read_property_fields(traits_dir)
+    order = read_property_factory(traits_dir)
     lines = [
         "/- GENERATED by harness/translate/propsrc.py from the working tree - do not edit. -/",
         "import TraitsVerif.Model.PropL",
@@ -412,6 +607,25 @@ def emit(traits_dir):
         "def tpcBody : CStmt :=\n  %s" % tpc_term, "",
         "/-- what `getattr_property1` passes to the getter -/",
         "def getterArgs : List String := [%s]" % ", ".join('"%s"' % a for a in gargs), "",
+        "/-- `getattr_property0..3`, `setattr_property0..3`, `setattr_validate0..3`, `setattr_validate_property`,",
+        "the three handler tables and `_trait_set_property` (traits/ctraits.c) -/",
+        "def handlers : Handlers :=",
+        "  { get := [%s]," % ", ".join(gets),
+        "    set := [%s]," % ",\n            ".join(sets),
+        "    validate := [%s]," % ", ".join(vals),
+        "    vset := %s," % vset,
+        "    install := { getTable := %s, setTable := %s, validateTable := %s," % tuple(str(t) for t in tables),
+        "                 getIndexedBy := %s, validatedSetattr := %s, validatedPostIndexedBy := %s," % (
+            lean_s(get_ix), lean_s(vsetattr), lean_s(post_ix)),
+        "                 validatedValidateIndexedBy := %s, plainSetIndexedBy := %s, validatedWhen := %s," % (
+            lean_s(val_ix), lean_s(plain_ix), lean_s(cond)),
+        "                 fields := [%s] } }" % ", ".join("(%s, %s)" % (lean_s(f), lean_s(v)) for f, v in fields), "",
+        "/-- `CTrait.property_fields` setter (traits/ctrait.py): arity of `None`, how an arity is computed,",
+        "order of each pair handed to `_set_property`; `traits.Property` / `TraitType.as_ctrait`: order of the triple -/",
+        "def noneArity : Nat := %d" % pf["noneArity"],
+        "def arityOf : String := %s" % lean_s(pf["arity"]),
+        "def pairOrder : List String := [%s]" % ", ".join(lean_s(x) for x in pf["pairOrder"]),
+        "def fieldsOrder : List String := [%s]" % ", ".join(lean_s(x) for x in order), "",
         "end TraitsVerif.Generated.PropertyProg",
     ]
     return "\n".join(lines) + "\n"
